@@ -113,6 +113,18 @@ def main():
                 return True
         return False
     judge('MonitorTrace.tla', 'MonitorTrace.cfg', MF, corrupt(ctr, drop_fclose), 'value file never completed before its row commits', False)
+    # --- free-running processes, linearizability (C05)
+    from harness import freerun
+    ftr = [freerun.run_free({'inherit': i % 2}, [op('set', k=KA, v=1, ttl=[], tag=0)],
+                            {1: [op('incr', k=KA, d=1, df=[0]), op('get', k=KA, fx=0, ft=0, mk='miss')], 2: [op('incr', k=KA, d=1, df=[0]), op('pop', k=KA, fx=0, ft=0)]}, i, i + 1)
+           for i in range(3)]
+    judge('LinTrace.tla', 'LinTrace.cfg', MF, copy.deepcopy(ftr), 'recorded multi-process histories', True)
+    judge('LinTrace.tla', 'LinTrace.cfg', MF, corrupt(ftr, lambda t: flip_ret(t, lambda e: e['ev'] == 'ret' and e['ret']['k'] == 'int')), 'one incr result altered (a lost update)', False)
+
+    def swap_final(t):
+        t['ev'][-1]['pairs'] = t['ev'][-1]['pairs'] + [[[1, 120], 9]]
+        return True
+    judge('LinTrace.tla', 'LinTrace.cfg', MF, corrupt(ftr, swap_final), 'final contents hold an item nobody stored', False)
     # --- Deque / Index
     dtr = [dequedriver.run_seq(dequedriver.random_ops(rng, 40, 3), 3, seed=i, tid=i + 1) for i in range(2)]
     DF = ('id', 'nc', 'init', 'ev', 'kind')
